@@ -322,6 +322,40 @@ def coverage_ob(prog, table):
     return Ob("coverage/public-api", run, "every public operation of factor/measure/density/linear-conditional classes has a driver or a recorded exclusion", "gaussian_toolbox/*", group="coverage")
 
 
+def default_ctor_ob(prog, cls):
+    """objects constructed with their optional array arguments omitted are well-formed batches too (the defaults carry the
+    component axis; a broadcastable size-1 default evaluates correctly but breaks slice / product)."""
+    r = prog.find_method(cls, "__post_init__")
+    anchor = f"{prog.relpath(prog.cls(r[0]).mod)}::{r[0]}.__post_init__" if r else f"{cls}.__post_init__"
+
+    def run():
+        I = build.new_interp()
+        R, Dd = sym("R"), sym("D")
+        if cls == "ConjugateFactor":
+            o = build.factor(I, R, Dd, "f", nu=False, ln_beta=False)
+        elif cls == "OneRankFactor":
+            o = build.onerank(I, R, Dd, "f", g=False, nu=False, ln_beta=False)
+        elif cls == "LinearFactor":
+            o = build.linear_factor(I, R, Dd, "f", ln_beta=False)
+        elif cls in ("GaussianMeasure", "GaussianDiagMeasure"):
+            kw = dict(Lambda=(build.diag_matrix("Lambda(u)", R, Dd) if "Diag" in cls else nf.atom("Lambda(u)", [R, Dd, Dd], sym=True, owner="u")))
+            o = I.construct(cls, kw)
+        else:
+            Dy = sym("Dy")
+            Dx = Dy if drivers.is_identity(cls) else sym("Dx")
+            o = build.conditional(I, R, Dy, Dx, "c", cls=cls, args="Sigma", b=False)
+        bad = wellformed_violations(o, f"{cls}(defaults)")
+        for k in BATCH_FIELDS:
+            v = o.f.get(k)
+            if isinstance(v, Val) and v.axes and v.shape[0] != R:
+                bad.append(f"{cls}(defaults): field {k} has leading size {v.shape[0]}, not the component count R")
+        if bad:
+            raise Refuted("; ".join(bad[:3]), anchor, bad)
+        return [], dict(funcs=funcs_of(I))
+    return Ob(f"ctor-default/{cls}", run, "an object constructed with optional array arguments omitted is a well-formed batch: every batch-carrying field has leading size R",
+              anchor, group="ctor-default")
+
+
 def obligations(tier):
     prog = model.load()
     table = apis.api_list(prog)
@@ -332,10 +366,12 @@ def obligations(tier):
         obs.append(slice_ob(prog, cls))
     for cls in ("GaussianPDF", "GaussianDiagPDF"):
         obs.append(update_ob(prog, cls))
+    for cls in ["ConjugateFactor", "OneRankFactor", "LinearFactor", "GaussianMeasure", "GaussianDiagMeasure"] + list(drivers.COND_CLASSES):
+        obs.append(default_ctor_ob(prog, cls))
     return obs
 
 
-FLOORS = {"group:parametric": 540, "group:slice": 20, "group:update": 2, "group:coverage": 1}
+FLOORS = {"group:parametric": 540, "group:slice": 20, "group:update": 2, "group:coverage": 1, "group:ctor-default": 9}
 LEVEL = "proof"
 EXPLANATION = ("Batch parametricity: every public operation of every factor / measure / density / linear-conditional class is interpreted in its "
                "batch contexts and each returned array's normal form is inspected: every tensor that carries an operand's component index must carry "
